@@ -8,4 +8,4 @@ for d in sorted(glob.glob(os.path.join(ROOT, "seeded", "*"))):
     m = json.load(open(os.path.join(d, "meta.json")))
     cb = m.get("caught_by") or []
     print("| %s | %s | %s | %s | %s |" % (os.path.basename(d), m["property"], m["summary"][:150].replace("|", "/"),
-                                         m["needs"][:150].replace("|", "/"), ", ".join(cb) if cb else "**missed**"))
+                                         m["needs"][:150].replace("|", "/"), ", ".join(cb) if cb else ("**missed**" + (" (no longer observable, see meta)" if m.get("note_after_fix") else ""))))
